@@ -19,6 +19,7 @@ def handleLine (line : String) : String :=
     | "filter" => handleFilter op a
     | "footer" => handleFooter op a
     | "fs" => handleFs op a
+    | "ds" => handleDs op a
     | _ => s!"err unknown-stream {stream}"
   | _ => "err bad-request"
 
